@@ -970,11 +970,31 @@ impl<T: Serialize + for<'de> Deserialize<'de> + Clone + PartialEq + Send + Sync 
     async fn recover_from_wal(&self, stats: &mut RecoveryStats) -> Result<()> {
         let wal_files = self.find_wal_files()?;
 
+        let current_name = std::ffi::OsString::from(format!("state.{WAL_EXTENSION}"));
         for wal_path in wal_files {
             match self.replay_wal_file(&wal_path, stats).await {
-                Ok(entries) => {
+                Ok((entries, valid_len)) => {
                     stats.wal_files_processed += 1;
                     stats.entries_recovered += entries;
+
+                    // Cut an incomplete tail off the current file: new entries are appended
+                    // to it, and behind leftover bytes of a torn write they would be
+                    // unreadable at the next recovery.
+                    if wal_path.file_name() == Some(current_name.as_os_str()) {
+                        let file_len = std::fs::metadata(&wal_path).map(|m| m.len())?;
+                        if valid_len < file_len {
+                            OpenOptions::new()
+                                .write(true)
+                                .open(&wal_path)?
+                                .set_len(valid_len)?;
+                            let mut writer = self.wal_writer.lock().map_err(|_| {
+                                P2PError::Storage(StorageError::LockPoisoned(
+                                    "mutex lock failed".to_string().into(),
+                                ))
+                            })?;
+                            writer.current_size = valid_len;
+                        }
+                    }
                 }
                 Err(e) => {
                     tracing::error!("Failed to replay WAL file {:?}: {}", wal_path, e);
@@ -987,13 +1007,22 @@ impl<T: Serialize + for<'de> Deserialize<'de> + Clone + PartialEq + Send + Sync 
     }
 
     /// Replay single WAL file
-    async fn replay_wal_file(&self, path: &Path, stats: &mut RecoveryStats) -> Result<u64> {
+    ///
+    /// Returns the number of entries applied and the length of the well-framed prefix of
+    /// the file (the offset behind the last complete entry frame).
+    async fn replay_wal_file(
+        &self,
+        path: &Path,
+        stats: &mut RecoveryStats,
+    ) -> Result<(u64, u64)> {
         let mut file = File::open(path).map_err(|e| {
             P2PError::Storage(StorageError::Database(
                 format!("Failed to open WAL file: {e}").into(),
             ))
         })?;
 
+        let file_len = file.metadata().map(|m| m.len())?;
+        let mut valid_len = 0u64;
         let mut entries_recovered = 0u64;
         let mut buffer = Vec::new();
 
@@ -1002,11 +1031,36 @@ impl<T: Serialize + for<'de> Deserialize<'de> + Clone + PartialEq + Send + Sync 
             let mut size_bytes = [0u8; 4];
             match file.read_exact(&mut size_bytes) {
                 Ok(()) => {}
-                Err(e) if e.kind() == std::io::ErrorKind::UnexpectedEof => break,
+                Err(e) if e.kind() == std::io::ErrorKind::UnexpectedEof => {
+                    if file_len > valid_len {
+                        // Leftover bytes of an incomplete length prefix
+                        stats.corruption_events.push(CorruptionEvent {
+                            file_path: path.to_path_buf(),
+                            corruption_type: CorruptionType::IncompleteWrite,
+                            offset: valid_len,
+                            recovery_action: RecoveryAction::Skipped,
+                        });
+                        stats.entries_failed += 1;
+                    }
+                    break;
+                }
                 Err(e) => return Err(P2PError::Io(e)),
             }
 
             let entry_size = u32::from_le_bytes(size_bytes) as usize;
+
+            // An entry cannot be longer than the rest of the file: this is an incomplete
+            // last write or a damaged length prefix. Never size the buffer from it.
+            if entry_size as u64 > file_len.saturating_sub(valid_len + 4) {
+                stats.corruption_events.push(CorruptionEvent {
+                    file_path: path.to_path_buf(),
+                    corruption_type: CorruptionType::IncompleteWrite,
+                    offset: valid_len,
+                    recovery_action: RecoveryAction::Skipped,
+                });
+                stats.entries_failed += 1;
+                break;
+            }
 
             // Read entry data
             buffer.resize(entry_size, 0);
@@ -1020,9 +1074,10 @@ impl<T: Serialize + for<'de> Deserialize<'de> + Clone + PartialEq + Send + Sync 
                         recovery_action: RecoveryAction::Skipped,
                     });
                     stats.entries_failed += 1;
-                    continue;
+                    break;
                 }
             }
+            valid_len += 4 + entry_size as u64;
 
             // Deserialize entry
             let entry: WalEntry = match postcard::from_bytes(&buffer) {
@@ -1098,7 +1153,7 @@ impl<T: Serialize + for<'de> Deserialize<'de> + Clone + PartialEq + Send + Sync 
             }
         }
 
-        Ok(entries_recovered)
+        Ok((entries_recovered, valid_len))
     }
 
     /// Create WAL entry with HMAC
@@ -1332,6 +1387,8 @@ impl<T: Serialize + for<'de> Deserialize<'de> + Clone + PartialEq + Send + Sync 
             ))
         })?;
 
+        let file_len = file.metadata().map(|m| m.len())?;
+        let mut offset = 0u64;
         let mut max_transaction_id = 0u64;
         let mut buffer = Vec::new();
 
@@ -1345,6 +1402,12 @@ impl<T: Serialize + for<'de> Deserialize<'de> + Clone + PartialEq + Send + Sync 
             }
 
             let entry_size = u32::from_le_bytes(size_bytes) as usize;
+            if entry_size as u64 > file_len.saturating_sub(offset + 4) {
+                return Err(P2PError::Storage(StorageError::CorruptionDetected(
+                    "WAL entry longer than the rest of the file".to_string().into(),
+                )));
+            }
+            offset += 4 + entry_size as u64;
 
             // Read entry data
             buffer.resize(entry_size, 0);
@@ -1520,7 +1583,9 @@ impl<T: Serialize + for<'de> Deserialize<'de> + Clone + PartialEq + Send + Sync 
     /// Verify WAL file integrity
     async fn verify_wal_integrity(&self, path: &Path) -> Result<u64> {
         let stats = &mut RecoveryStats::default();
-        self.replay_wal_file(path, stats).await
+        self.replay_wal_file(path, stats)
+            .await
+            .map(|(entries, _)| entries)
     }
 }
 
